@@ -286,6 +286,16 @@ class U:
         self.ctx.assume(self.forall(shape, fn))
         return ob
 
+    def asserted(self, msg, *idx):
+        """The passed (recorded) `assert torch.all(X), msg` of the executed code, used at index idx: X[idx] holds whenever idx is
+        in range. Sound by the semantics of all(); saves the solver the instantiation of the quantified hypothesis."""
+        hits = [a for a in self.ctx.recorded_asserts if msg in a["msg"] and a.get("elem") is not None]
+        if not hits:
+            raise KeyError(f"no recorded all()-assert with message containing {msg!r}")
+        for a in hits:
+            rng = [z3.And(zint(i) >= 0, zint(i) < zint(n)) for i, n in zip(idx, a["shape"])]
+            self.ctx.assume(IMPL(AND(*rng), ops.B_(a["elem"](tuple(idx)))))
+
     def canary(self, name, goal, tags=None):
         """A deliberately wrong clause: must be refutable (guards against vacuity)."""
         return self.ctx.oblige("canary:" + name, ops.B_(goal), kind="canary", expect="sat",
